@@ -86,7 +86,7 @@ def obligations(tier):
     cp = 's: str, pretty: bool'
     add('eql_codegen_str', cp, [NOSUR], group='18.5.codegen_str.unicode', lens=[0, 1], bound=uni + ' x pretty')
     add('eql_codegen_str', cp, [ASCII], group='18.5.codegen_str.ascii', lens=[2], bound='ASCII x pretty',
-        parts=[('lt32', 'ord(s[0]) < 32'), ('32to47', '32 <= ord(s[0]) < 48')] + FIRST4[1:])
+        parts=[('lt16', 'ord(s[0]) < 16'), ('16to31', '16 <= ord(s[0]) < 32'), ('32to47', '32 <= ord(s[0]) < 48')] + FIRST4[1:])
     if not quick:
         add('eql_codegen_str', cp, [NOSUR, 'not pretty'], group='18.5.codegen_str.unicode', lens=[2], parts=UNI_FIRST, bound=uni)
         add('eql_codegen_str', cp, [ADV, 'not pretty'], group='18.5.codegen_str.adv', lens=[3], bound='adversarial alphabet',
